@@ -1128,6 +1128,25 @@ def r_pipeline_fail_fast(cx):
               "pipeline::new goes on with the remaining steps after one has failed: for a cyclic macro definition whose body "
               "refers to the cycle k times, the error raised at the nesting limit no longer ends the expansion - every "
               "reference is expanded at every level (k^depth instantiations)", cx.where(t["span"]))
+    # the iterator form: `steps.iter().map(|s| Op::op(..)).collect::<Result<Vec<Op>, _>>()?` - collecting into a Result
+    # stops at the first Err by construction
+    for cname in sorted(cx.f.lib["fns"]):
+        if not cname.startswith(name + "::{closure"):
+            continue
+        g = cx.f.fn(cname)
+        if not any((g.callee(t) or "").endswith("op::Op::op") and g.innermost_loop(bb) is None for bb, t in g.calls()):
+            continue
+        for bb, t in f.calls():
+            if (f.callee(t) or "").rsplit("::", 1)[-1] not in ("collect", "try_collect", "try_for_each", "try_fold"):
+                continue
+            full = t.get("callee_full") or ""
+            if cname.rsplit("::", 1)[-1] and "closure@" in full:
+                n += 1
+                ok = "::collect::<std::result::Result<" in full or (f.callee(t) or "").rsplit("::", 1)[-1].startswith("try_")
+                cx.ob("R-PIPELINE-FAIL-FAST", "pipeline/step-failure%d" % (n - 1), ok,
+                      "pipeline::new collects its steps into a Result: the first failing step ends the instantiation" if ok else
+                      "pipeline::new instantiates all of its steps before it looks at their results: for a cyclic macro "
+                      "definition every reference is expanded at every level", cx.where(t["span"]))
     cx.count("R-PIPELINE-FAIL-FAST", "step_instantiations", n)
 
 
@@ -1156,6 +1175,30 @@ def r_normalize_keeps_separators(cx):
                   "normalize trims %s off the ends of the text - no step separator" % (chars,) if not bad else
                   "normalize trims %s off the ends of the definition: a leading `<` or `>` is the omit_fwd / omit_inv marker "
                   "of the first step, which then runs in both directions" % (bad,), cx.where(t["span"]))
+    # a continuation colon (a colon that starts a line) stands for white space: it is replaced by white space, never by
+    # nothing, which would glue the last word of a line to the first of the next (`x=1\n:y=2` -> `x=1y=2`)
+    try:
+        pairs = list(normalize_pairs(cx))
+    except Exception:
+        pairs = []
+    for name in sorted(cx.f.lib["fns"]):
+        if not name.startswith("<T as token::Tokenize>::"):
+            continue
+        f = cx.f.fn(name)
+        for bb, t in f.calls():
+            if (f.callee(t) or "").rsplit("::", 1)[-1] == "replace" and len(f.arg_terms(bb)) == 3:
+                a, b = (K._const_key(x) for x in f.arg_terms(bb)[1:])
+                if a is not None and b is not None and (a, b) not in pairs:
+                    pairs.append((a, b))
+    for a, b in pairs:
+        if a and a[0] in "\r\n" and a.rstrip(" ").endswith(":") and set(a) <= set("\r\n :"):
+            n += 1
+            ok = bool(b) and b.isspace()
+            cx.ob("R-NORMALIZE-KEEPS-SEPARATORS", "normalize/continuation", ok,
+                  "a continuation colon is replaced by white space" if ok else
+                  "normalize replaces a continuation colon (%r) by %r: the words on both sides of the line break are glued "
+                  "together, so a continuation line changes the meaning of the definition" % (a, b),
+                  cx.where(cx.f.fn(base).d["span"]))
     if n == 0:
         cx.ob("R-NORMALIZE-KEEPS-SEPARATORS", "normalize/none", True, "normalize trims no characters off the ends of the text",
               nontrivial=False)
